@@ -620,6 +620,17 @@ func (it *Interp) execRange(x *ast.RangeStmt, env *Env) ctrl {
 			}
 		}
 	case int64:
+		if members, ok := it.sparseMembers(x, env, c); ok {
+			for _, i := range members {
+				switch body(int64(i), nil) {
+				case cBreak:
+					return cNone
+				case cReturn:
+					return cReturn
+				}
+			}
+			return cNone
+		}
 		for i := int64(0); i < c; i++ {
 			switch body(i, nil) {
 			case cBreak:
@@ -898,6 +909,11 @@ func (it *Interp) eval(e ast.Expr, env *Env) Value {
 		case token.AND:
 			if cl, ok := ast.Unparen(x.X).(*ast.CompositeLit); ok {
 				return it.compositeLit(cl, env) // &T{…}: the object itself is the pointer
+			}
+			if ie, ok := ast.Unparen(x.X).(*ast.IndexExpr); ok && isStructType(it.info.Types[x.X].Type) {
+				if o, ok := it.eval(ie, env).(*Obj); ok {
+					return o // &slice[i] of a struct element: the element object
+				}
 			}
 			c := it.lvalue(x.X, env)
 			if o, ok := c.v.(*Obj); ok && isStructType(it.info.Types[x.X].Type) {
@@ -1457,4 +1473,42 @@ func sortedKeys(m map[any]Value) []any {
 	}
 	sort.Slice(ks, func(i, j int) bool { return fmt.Sprint(ks[i]) < fmt.Sprint(ks[j]) })
 	return ks
+}
+
+// sparseMembers: `for d := range N { if S.Has(d) { … } }` over a huge N with a
+// modelled set S only has effects for members of S; iterate those.
+func (it *Interp) sparseMembers(x *ast.RangeStmt, env *Env, n int64) ([]rune, bool) {
+	if n < 1<<16 || len(x.Body.List) != 1 || x.Key == nil {
+		return nil, false
+	}
+	is, ok := x.Body.List[0].(*ast.IfStmt)
+	if !ok || is.Init != nil || is.Else != nil {
+		return nil, false
+	}
+	call, ok := is.Cond.(*ast.CallExpr)
+	if !ok || len(call.Args) != 1 {
+		return nil, false
+	}
+	se, ok := call.Fun.(*ast.SelectorExpr)
+	if !ok || se.Sel.Name != "Has" {
+		return nil, false
+	}
+	key, ok := x.Key.(*ast.Ident)
+	arg, ok2 := call.Args[0].(*ast.Ident)
+	if !ok || !ok2 || it.info.Defs[key] == nil || it.info.Uses[arg] != it.info.Defs[key] {
+		return nil, false
+	}
+	e := newEnv(env)
+	e.define(it.info.Defs[key], int64(0))
+	s, ok := it.eval(se.X, e).(*NSet)
+	if !ok {
+		return nil, false
+	}
+	var out []rune
+	for _, r := range s.members() {
+		if int64(r) < n {
+			out = append(out, r)
+		}
+	}
+	return out, true
 }
